@@ -54,7 +54,9 @@ def gen_tree(rng, nclasses=None, small=False, hardlink_p=0.25, tiny=False):
     fid = 0
     for c in range(nclasses):
         n = rng.choice(LENGTHS[:4] if tiny else (LENGTHS[:11] if small else LENGTHS))
-        seed = rng.randint(0, 1 << 30)
+        # now and then the base bytes of the previous class at another length: equal heads (and equal outputs of
+        # truncating transforms) across different file lengths
+        seed = files[-1]["seed"] if files and rng.random() < 0.25 else rng.randint(0, 1 << 30)
         variants = [None] + rng.sample(flip_offsets(n, rng), k=min(len(flip_offsets(n, rng)), rng.randint(0, 3)))
         for v in variants:
             copies = rng.choice([1, 1, 2, 2, 3])
@@ -71,6 +73,25 @@ def gen_tree(rng, nclasses=None, small=False, hardlink_p=0.25, tiny=False):
                     first = fid
                 files.append(f)
                 fid += 1
+    return files
+
+
+def linky_tree(rng, nclasses=8):
+    """Classes of [file, hard link of it, independent copy (, hard link of the copy)] longer than any prefix length: the contents stage
+    receives the paths of one identity interleaved with other identities when the pool has several threads."""
+    files = []
+    fid = 0
+    for c in range(nclasses):
+        n = rng.choice([16385, 20000, 65537, 70000])
+        seed = rng.randint(0, 1 << 30)
+        shape = rng.choice([[None, 0, None], [None, 0, None, 2], [None, None, 0, 1], [None, 0, 0, None]])
+        ids = []
+        for k, link in enumerate(shape):
+            f = {"id": fid, "root": rng.choice(ROOTS), "sub": rng.choice(["", "s", "s/t"]), "name": "f%d" % fid, "seed": seed, "len": n, "flip": None,
+                 "hardlink_of": None if link is None else ids[link], "symlink_to": None}
+            ids.append(fid)
+            files.append(f)
+            fid += 1
     return files
 
 
